@@ -29,7 +29,10 @@ RULE = ("every (rows, cols, #data variables 1..4 (and data=None), #extra coordin
         "Datasets, named and unnamed DataArrays and Dataset members built directly with xarray with the coordinates declared in every "
         "order (all permutations up to 4 coordinates), grids stored as (easting, northing), and Datasets / DataArrays whose later variables "
         "and / or non-index coordinates are stored in the opposite dimension order to the first variable (the input class of finding F6); "
-        "arrays->grid->table round trips; "
+        "Datasets assembled coordinates-first (make_xarray_grid(data=None) then item assignment, DataArray.to_dataset(), "
+        "xr.Dataset(coords=...) then assign) whose Dataset-level dimension order is the reverse of their variables' with 1..3 2-D extra "
+        "coordinates; single-row (1 x n) and single-column (n x 1) 2-D coordinate inputs that are not meshgrids (northing varying along "
+        "the row / easting varying down the column) with genuine single row / column meshgrids as controls; arrays->grid->table round trips; "
         "meshgrid_from_1d/meshgrid_to_1d compositions both ways; random larger grids up to 8 x 9. A case is non-trivial when the call is accepted and the grid has at "
         "least 2 cells; distinct = distinct (stream, input) pairs.")
 ASSUMPTIONS = [
@@ -354,6 +357,86 @@ def direct_grid(rnd, nn, ne, nd, nx, dims, perm, mode, transposed=(), as_int=Fal
     return g, recipe
 
 
+def coords_first_grid(vd, rnd, nn, ne, nd, nx, dims, how, transposed=()):
+    """a Dataset assembled coordinates-first, so that the Dataset-level dimension order is (d1, d0) while every
+    variable is declared (d0, d1).  how: 'make-none' (make_xarray_grid(data=None) then item assignment) |
+    'to_dataset' (a member DataArray of a complete grid turned back into a Dataset, other variables re-assigned) |
+    'xr-coords' (xr.Dataset(coords=...) with d1 declared first, then .assign).  transposed: ("data", k>=1) /
+    ("extra", k) stored as (d1, d0).  returns (grid, recipe)"""
+    import xarray as xr
+    d0, d1 = dims
+    e, n = axes(rnd, nn, ne)
+    xnames = rnd.sample(XNAMES, nx)
+    dnames = rnd.sample(DNAMES, nd)
+    xs = [field(rnd, nn, ne, 5000.0 * (k + 1)) for k in range(nx)]
+    arrs = [field(rnd, nn, ne, 100.0 * (k + 1)) for k in range(nd)]
+
+    def var(k):
+        if ("data", k) in transposed:
+            return ((d1, d0), arrs[k].T), "(%r, %s)" % ((d1, d0), lit(arrs[k].T))
+        return ((d0, d1), arrs[k]), "(%r, %s)" % ((d0, d1), lit(arrs[k]))
+
+    if how == "xr-coords":
+        coords, csrc = {d1: e, d0: n}, ["%r: %s" % (d1, lit(e)), "%r: %s" % (d0, lit(n))]
+        for k in range(nx):
+            if ("extra", k) in transposed:
+                coords[xnames[k]] = ((d1, d0), xs[k].T)
+                csrc.append("%r: (%r, %s)" % (xnames[k], (d1, d0), lit(xs[k].T)))
+            else:
+                coords[xnames[k]] = ((d0, d1), xs[k])
+                csrc.append("%r: (%r, %s)" % (xnames[k], (d0, d1), lit(xs[k])))
+        g = xr.Dataset(coords=coords)
+        recipe = "g = xr.Dataset(coords={%s})" % ", ".join(csrc)
+        for k in range(nd):
+            v, vs = var(k)
+            g = g.assign({dnames[k]: v})
+            recipe += "; g = g.assign({%r: %s})" % (dnames[k], vs)
+        return g, recipe
+    E, N = np.meshgrid(e, n)
+    call = "verde.make_xarray_grid((%s), %%s, %%s, dims=%r, extra_coords_names=%r)" % (
+        "".join(lit(a) + "," for a in (E, N, *xs)), (d0, d1), xnames or None)
+    if how == "make-none":
+        g = vd.make_xarray_grid((E, N, *xs), None, None, dims=(d0, d1), extra_coords_names=xnames or None)
+        recipe = "g = " + call % ("None", "None")
+        first = 0
+    else:
+        g = vd.make_xarray_grid((E, N, *xs), arrs[0], dnames[0], dims=(d0, d1), extra_coords_names=xnames or None)
+        g = g[dnames[0]].to_dataset()
+        recipe = "g = " + call % (lit(arrs[0]), repr(dnames[0])) + "[%r].to_dataset()" % dnames[0]
+        first = 1
+    for k in range(first, nd):
+        v, vs = var(k) if k > 0 else (((d0, d1), arrs[0]), "(%r, %s)" % ((d0, d1), lit(arrs[0])))
+        g[dnames[k]] = v
+        recipe += "; g[%r] = %s" % (dnames[k], vs)
+    return g, recipe
+
+
+def case_round_coords_first(vd, a, kind, stream_key):
+    """arrays -> make_xarray_grid(data=None) -> variables assigned one by one -> grid_to_table, against the raveled inputs"""
+    dims = a["dims"] if a["dims"] is not None else DEFAULT_DIMS
+    data = a["data"] if isinstance(a["data"], tuple) else (a["data"],)
+    names = [a["dnames"]] if isinstance(a["dnames"], str) else list(a["dnames"])
+
+    def go():
+        b = dict(a, data=None, dnames=None)
+        g = call_make(vd, b)
+        for nm, arr in zip(names, data):
+            g[nm] = (tuple(dims), arr)
+        assert tuple(g.dims) != tuple(dims) or len(g.dims) < 2
+        return vd.grid_to_table(g)
+    res = run(go)
+    if res[0] == "ok":
+        obs, out = "(Some %s)" % ctable(res[1]), ["ok", jtable(res[1])]
+    elif res[0] == "ValueError":
+        obs, out = "None", list(res)
+    else:
+        obs, out = BOGUS_TABLE, list(res)
+    term = "c18_round %s %s" % (make_term_args(a), obs)
+    tail = "".join("g[%r] = (%r, %s); " % (nm, tuple(dims), lit(arr)) for nm, arr in zip(names, data)) + "print(verde.grid_to_table(g))"
+    return Case({"stream": stream_key, "args": jargs(a), "assembly": "make_xarray_grid(data=None) then item assignment"}, out, term,
+                repro_make(dict(a, data=None, dnames=None), tail), kind, nontrivial=(res[0] == "ok" and len(res[1]) >= 2))
+
+
 # ---------------------------------------------------------------------------
 # meshgrid conversions
 # ---------------------------------------------------------------------------
@@ -430,6 +513,7 @@ def generate(tier, seed, mixed=True):
     cases = []
     R = 4 if quick else 6
     shapes = [(nn, ne) for nn in range(1, R + 1) for ne in range(1, R + 1)]
+    big = [(nn, ne) for nn in range(1, 9) for ne in range(1, 10) if nn > R or ne > R]
 
     # 1. make_xarray_grid: every configuration, 1-D and 2-D input
     k = 0
@@ -537,6 +621,61 @@ def generate(tier, seed, mixed=True):
             a["xnames"] = a["xnames"][0]
         cases.append(case_make(vd, a, "reject-" + f, "make"))
 
+    # 3b. single-row / single-column 2-D coordinates: non-meshgrids (the other axis has nothing to compare) and genuine controls
+    line_shapes = [(1, k) for k in range(2, R + 3)] + [(k, 1) for k in range(2, R + 3)]
+    reps = 2 if quick else 12
+    for (nn, ne) in line_shapes * reps:
+        for what in ("control", "fault", "fault-both"):
+            a = build(rnd, nn, ne, rnd.randint(1, 3), rnd.randint(0, 2), True, dims=rnd.choice(DIMS))
+            if what != "control":
+                if nn == 1:     # a profile given as (1, n) arrays: northing varies along the single row
+                    js = rnd.sample(range(1, ne), 1 if what == "fault" else ne - 1)
+                    for j in js:
+                        perturb(rnd, a["cn"], (0, j), big=True)
+                    if what == "fault-both" and rnd.random() < 0.5:
+                        a["ce"][0, :] = a["ce"][0, 0]       # easting constant along the line: a "vertical" profile
+                else:           # an (n, 1) column whose easting varies
+                    iis = rnd.sample(range(1, nn), 1 if what == "fault" else nn - 1)
+                    for i in iis:
+                        perturb(rnd, a["ce"], (i, 0), big=True)
+                    if what == "fault-both" and rnd.random() < 0.5:
+                        a["cn"][:, 0] = a["cn"][0, 0]
+            tag = ("row" if nn == 1 else "col")
+            kind = ("control-single-" + tag) if what == "control" else ("reject-single-%s-%s" % (tag, "N-varies" if nn == 1 else "E-varies"))
+            pick = rnd.randrange(3)
+            if pick == 0:
+                cases.append(case_make(vd, a, kind, "make"))
+            elif pick == 1:
+                cases.append(case_round(vd, a, kind, "round"))
+            else:
+                cases.append(case_to_from(vd, np.asarray(a["ce"]), np.asarray(a["cn"]), a["extras"], kind, "to_from"))
+
+    # 3c. Datasets assembled coordinates-first: Dataset-level dims are (d1, d0), the variables' (d0, d1)
+    hows = ["make-none", "to_dataset", "xr-coords"]
+    k = 0
+    for (nn, ne) in shapes + ([] if quick else big[::3]):
+        for nx in range(1, 4):
+            for how in hows:
+                if quick and (nn + ne + nx + hows.index(how)) % 2:
+                    continue
+                k += 1
+                nd = rnd.randint(1, 4)
+                tr = set()
+                if k % 4 == 0 and nd >= 2:
+                    tr.add(("data", rnd.randrange(1, nd)))
+                if k % 4 == 2 and how == "xr-coords":
+                    tr.add(("extra", rnd.randrange(nx)))
+                g, recipe = coords_first_grid(vd, rnd, nn, ne, nd, nx, DIMS[1 + k % (len(DIMS) - 1)], how, transposed=tr)
+                assert tuple(g.dims) != tuple(g[list(g.data_vars)[0]].dims)
+                cases.append(case_table(vd, g, "table-coords-first" + ("-mixed" if tr else ""), "table-coords-first", recipe))
+        for nd in (1, 3):
+            for nx in (1, 2):
+                k += 1
+                a = build(rnd, nn, ne, nd, nx, bool(k % 2), dims=DIMS[k % len(DIMS)])
+                if isinstance(a["data"], np.ndarray):
+                    a["data"] = (a["data"],)
+                cases.append(case_round_coords_first(vd, a, "round-coords-first", "round-coords-first"))
+
     # 4. grid_to_table on grids built directly with xarray
     tcount = 0
     for (nn, ne) in shapes:
@@ -587,7 +726,6 @@ def generate(tier, seed, mixed=True):
             cases.append(case_to_from(vd, E, N, extras, kind, "to_from"))
 
     # 5b. larger random grids (up to 8 x 9), all call styles
-    big = [(nn, ne) for nn in range(1, 9) for ne in range(1, 10) if nn > R or ne > R]
     for it in range(40 if quick else 800):
         nn, ne = rnd.choice(big)
         r = it % 5
